@@ -71,6 +71,16 @@ func tarShapes(r *mc.Run) (valid, other []tarShape, unavailable map[string]strin
 		{tm("x.tar.g/z", blobs[1]), nil, "slash inside the extension"},
 		{tm("my.tarx", blobs[1]), nil, ".tarx"},
 		{tm("tar", blobs[1]), nil, "tar without dot"},
+		// non-ASCII names: invalid UTF-8, runes whose case mapping changes their byte length, dots first / last / only
+		{tm(".\xe9", blobs[1]), nil, "dot + one invalid UTF-8 byte"},
+		{tm("r.\xe9s", blobs[1]), nil, "invalid UTF-8 in the extension"},
+		{tm("data.ȺȺȺȺȺ", blobs[1]), nil, "U+023A x5 as extension"},
+		{tm("data.\xe9t\xe9\xe9", blobs[1]), nil, "invalid UTF-8 x3 in the extension"},
+		{tm("İ.tar", blobs[1]), &TarSpec{Valid: true, Entries: models[1].es}, "U+0130 stem, stored tar"},
+		{tm("K.tar.gz", gz1), &TarSpec{Valid: true, Entries: models[1].es}, "U+212A stem, gzip tar"},
+		{tm("a.tar.é", blobs[1]), &TarSpec{Valid: true, Entries: models[1].es}, "non-ASCII unknown extension, stored tar"},
+		{tm(".", blobs[1]), nil, "a dot only"},
+		{tm("a.", blobs[1]), nil, "dot last"},
 	}
 	return
 }
